@@ -28,7 +28,7 @@ VERIF = os.path.dirname(HERE)
 CACHE = os.environ.get('OPTREE_VERIF_CACHE') or os.path.join(VERIF, '.cache')
 CLANG = 'clang++-14'
 PYBIND_INC = '/venv/lib/python3.12/site-packages/torch/include'
-IR_VERSION = '21'
+IR_VERSION = '22'
 
 CONFIGS = {
     # name: (CPython include dir, extra flags)
@@ -609,9 +609,27 @@ def resolve_bool_locals(body):
         return
     decls = {}
     decl_node = {}
+    # a local that is declared without `const` but never written (no assignment, ++ / --, no
+    # address taken, anywhere in the function or its lambdas) is as good as const
+    written = set()
+    for n in body.walk(into_lambdas=True):
+        tgt = None
+        if n.kind in ('BinaryOperator', 'CompoundAssignOperator') and \
+                (n.op == '=' or n.kind == 'CompoundAssignOperator') and n.kids:
+            tgt = n.kids[0]
+        elif n.kind == 'UnaryOperator' and n.op in ('++', '--', '&') and n.kids:
+            tgt = n.kids[0]
+        elif n.kind == 'CXXOperatorCallExpr' and n.callee_name() in ('operator=', 'operator++', 'operator--') \
+                and len(n.kids) > 1:
+            tgt = n.kids[1]
+        if tgt is not None and tgt.kind == 'DeclRefExpr' and (tgt.ref or {}).get('id'):
+            written.add(tgt.ref['id'])
     for n in body.walk():
-        if n.kind == 'VarDecl' and n.id is not None and n.kids and (n.type or '').startswith('const ') and \
-                (n.type or '')[6:].strip() in ALIAS_TYPES:
+        t_ = (n.type or '')
+        base_t = t_[6:].strip() if t_.startswith('const ') else t_.strip()
+        if n.kind == 'VarDecl' and n.id is not None and n.kids and base_t in ALIAS_TYPES and \
+                (t_.startswith('const ') or n.id not in written) and \
+                (n.x or {}).get('storageClass') != 'static':
             init = n.kids[-1]
             # `static_cast<bool>(test)` / `bool(test)`: the test itself (a condition converts to
             # bool contextually anyway)
